@@ -149,6 +149,14 @@ add("C11", "lit", "exploration",
     "go/types is the reference; fixture packages are loaded from source once per process.",
     "DESIGN.md section 3, C11")
 
+add("C10", "lit", "exploration",
+    "property-based testing (rapid): generated reflect values rendered by the dumper, the literal type-checked with go/types against the harness-spelled type and evaluated back by an AST evaluator (round trip)",
+    "Edge-biased values of grammar-generated types (all scalar kinds, named scalars, fixture structs/slices/maps/arrays, pre-instantiated generics, single-level pointers, "
+    "maps with non-string keys, anonymous structs) are rendered by snippet.Value / %v into another package, the type's own package or a clashing tracker; the literal must "
+    "type-check as `var V <T> = <literal>` with exactly the registered imports, evaluate (go/constant + AST evaluator) to a deeply equal value (nil == empty, -0 == 0) and render identically twice.",
+    "The literal is evaluated by a harness evaluator over go/types information rather than compiled and run; go/types and go/constant are trusted.",
+    "DESIGN.md section 3, C10")
+
 ALL = ["C%02d" % i for i in range(1, 21)]
 
 def main():
